@@ -133,7 +133,9 @@ func (w *worker) sendOrSleep(ctx context.Context, recs []*model.Record, events c
 		return nil
 	}
 
-	ev := model.NewEvent(w.desc.File, recs, w.meta, w.confCh)
+	// the event gets its own slice: run() clears and reuses recs as soon as this function returns, which after
+	// a cancel happens while the consumer may still be reading the event's records
+	ev := model.NewEvent(w.desc.File, append([]*model.Record(nil), recs...), w.meta, w.confCh)
 
 	select {
 	case <-ctx.Done():
